@@ -221,7 +221,204 @@ Section Through.
     { apply snum_lt_of; [apply Hstdall; rewrite Hsg'; apply in_or_app; left; exact Hy | apply Hstdall; exact Hzin | apply Hlt; exact Hy]. }
     lia.
   Qed.
+
+  (* two parent-linked runs through the same block B: a block of the second at or below B and not below the first's
+     bottom is on the first *)
+  Lemma anc_on_run (G Cn : list block) (g0 : block) (G' : list block) (B bn : block) :
+    G = g0 :: G' -> (exists x, lnk x G) -> (exists x, lnk x Cn) ->
+    Forall (fun y => In y U) G -> Forall (fun y => In y U) Cn ->
+    In B G -> In B Cn -> In bn Cn -> bnum bn <= bnum B -> bnum g0 <= bnum bn -> In bn G.
+  Proof.
+    intros EG [xg HlG] [xc HlC] HGU HCU HBG HBC Hbn Hle Hg0.
+    destruct (in_split _ _ HBG) as (G1 & G2 & EG1). destruct (in_split _ _ HBC) as (C1 & C2 & EC1).
+    assert (HlG1 : lnk xg (G1 ++ [B])).
+    { apply (linked_prefix xg (G1 ++ [B]) G2). rewrite <- app_assoc. cbn [app]. rewrite <- EG1. exact HlG. }
+    assert (HlC1 : lnk xc (C1 ++ [B])).
+    { apply (linked_prefix xc (C1 ++ [B]) C2). rewrite <- app_assoc. cbn [app]. rewrite <- EC1. exact HlC. }
+    assert (HGU1 : Forall (fun y => In y U) (G1 ++ [B])).
+    { rewrite EG1 in HGU. apply Forall_app in HGU as [H1 H2]. apply Forall_app. split; [exact H1|].
+      constructor; [exact (Forall_inv H2) | constructor]. }
+    assert (HCU1 : Forall (fun y => In y U) (C1 ++ [B])).
+    { rewrite EC1 in HCU. apply Forall_app in HCU as [H1 H2]. apply Forall_app. split; [exact H1|].
+      constructor; [exact (Forall_inv H2) | constructor]. }
+    pose proof (linked_sorted U U_id U_uniq U_up Cn xc HlC HCU) as HSC.
+    assert (Hbn1 : In bn (C1 ++ [B])).
+    { rewrite EC1 in Hbn. apply in_app_or in Hbn as [H|[H|H]].
+      - apply in_or_app. left. exact H.
+      - apply in_or_app. right. left. exact H.
+      - exfalso. rewrite EC1 in HSC. apply StronglySorted_app_r in HSC. inversion HSC as [|? ? _ Hall]; subst.
+        rewrite Forall_forall in Hall. specialize (Hall bn H). unfold blt in Hall. lia. }
+    assert (Hsub : forall z, In z (G1 ++ [B]) -> In z G).
+    { intros z Hz. rewrite EG1. apply in_app_or in Hz as [Hz|[<-|[]]]; apply in_or_app; [left; exact Hz | right; left; reflexivity]. }
+    destruct (linked_same_end U U_uniq G1 C1 xg xc B HlG1 HlC1 HGU1 HCU1) as [[d Ed]|[d Ed]].
+    - apply Hsub. rewrite Ed, <- app_assoc. apply in_or_app. right. exact Hbn1.
+    - rewrite Ed, <- app_assoc in Hbn1. apply in_app_or in Hbn1 as [Hd|Hin]; [|apply Hsub; exact Hin].
+      exfalso.
+      assert (Hg0in : In g0 (G1 ++ [B])).
+      { rewrite EG in EG1. destruct G1 as [|g1 G1'].
+        - cbn [app] in EG1. injection EG1 as -> _. left. reflexivity.
+        - cbn [app] in EG1. injection EG1 as -> _. left. reflexivity. }
+      pose proof (linked_sorted U U_id U_uniq U_up (C1 ++ [B]) xc HlC1 HCU1) as HS1.
+      rewrite Ed, <- app_assoc in HS1.
+      assert (Hlt : forall a l2, StronglySorted blt (d ++ l2) -> In a d -> forall z, In z l2 -> bnum a < bnum z).
+      { clear. induction d as [|u d IH]; intros a l2 HS Ha z Hz; [destruct Ha|].
+        cbn [app] in HS. inversion HS as [|? ? HS' Hall]; subst. destruct Ha as [<-|Ha].
+        - rewrite Forall_forall in Hall. apply (Hall z). apply in_or_app. right. exact Hz.
+        - exact (IH a l2 HS' Ha z Hz). }
+      specialize (Hlt bn (G1 ++ [B]) HS1 Hd g0 Hg0in). lia.
+  Qed.
+
+  (* hub.SourceThroughCursor asked for a block number at or below the cursor block answers only when the cursor
+     block is on the head's segment (the branch for a cursor block stored off the chain being excluded) *)
+  Lemma through_proper_on_chain s V n cu burst hd sg :
+    VState U first kept s V ->
+    (forall hd sg, last_sent s = Some hd -> complete_segment (db s) (bref hd) = Some (sg, true) ->
+       find (ri (cu_blk cu)) (store (db s)) <> None -> block_in (ri (cu_blk cu)) sg = true) ->
+    n <= rn (cu_blk cu) ->
+    hub_through_cursor s n cu = BOk burst ->
+    last_sent s = Some hd -> complete_segment (db s) (bref hd) = Some (sg, true) ->
+    block_in (ri (cu_blk cu)) sg = true.
+  Proof.
+    intros HV Hon Hn Hb Hls Eseg.
+    unfold hub_through_cursor in Hb. replace (rn (cu_blk cu) <? n) with false in Hb by (symmetry; apply N.ltb_ge; exact Hn).
+    unfold blocks_through_cursor in Hb.
+    destruct (has_lib (db s)); [|discriminate]. cbn [negb] in Hb. rewrite Hls, Eseg in Hb.
+    destruct sg as [|s0 sg0]; [discriminate|].
+    destruct (n <? snum s0); [discriminate|].
+    destruct (block_in (ri (cu_blk cu)) (s0 :: sg0)) eqn:Eblk; [reflexivity|]. exfalso.
+    destruct (complete_segment (db s) (cu_blk cu)) as [[csg [|]]|] eqn:Ecs; try discriminate.
+    2:{ destruct csg; discriminate. }
+    destruct csg as [|c0 csg0]; [discriminate|].
+    pose proof (complete_segment_segment_of _ _ _ _ Ecs) as [Hcst _ Hctop _ _].
+    destruct (exists_last (l := c0 :: csg0)) as (q & z & Ez); [discriminate|].
+    destruct (Hctop q z Ez) as (Hzid & _ & _).
+    assert (Hzst : find (sid z) (store (db s)) = Some (sent z)) by (apply Hcst; rewrite Ez; apply in_or_app; right; left; reflexivity).
+    rewrite Hzid in Hzst. rewrite (Hon hd (s0 :: sg0) Hls Eseg) in Eblk; [discriminate|]. rewrite Hzst. discriminate.
+  Qed.
 End Through.
+
+(* ------------------------------------------------------------------ the join in target-cursor mode *)
+
+(* join_try in target-cursor mode: the hub's answer "through the cursor" for the file block's number, and when the
+   cursor block is below the file block (the cursor has passed: fix "target join on identity") the answer starts with
+   the file block itself *)
+Lemma join_try_target c w lowest e cu evs :
+  j_mode c = 2 -> j_cursor c = Some cu -> join_try c w lowest e = Some evs ->
+  hub_through_cursor (h_f (w_hub w)) (bnum (eblk e)) cu = BOk evs /\ h_ready (w_hub w) = true /\
+  (rn (cu_blk cu) < bnum (eblk e) -> exists b0 tl, evs = b0 :: tl /\ bid (eblk b0) = bid (eblk e)).
+Proof.
+  intros Hmode Hcur. unfold join_try. rewrite Hmode, Hcur. cbn [N.eqb Pos.eqb].
+  destruct ((lowest <=? bnum (eblk e)) && matches_new (estep e)); [|discriminate].
+  destruct (hub_through_cursor (h_f (w_hub w)) (bnum (eblk e)) cu) as [evs'| | |]; try discriminate.
+  destruct (h_ready (w_hub w)); [|discriminate]. cbn [andb].
+  destruct (rn (cu_blk cu) <? bnum (eblk e)) eqn:Ep; cbn [negb orb].
+  - destruct evs' as [|b0 tl]; [discriminate|]. destruct (N.eqb_spec (bid (eblk b0)) (bid (eblk e))) as [E|E]; [|discriminate].
+    intros H. injection H as <-. split; [reflexivity|]. split; [reflexivity|]. intros _. exists b0, tl. auto.
+  - intros H. injection H as <-. split; [reflexivity|]. split; [reflexivity|]. apply N.ltb_ge in Ep. intros Hlt. lia.
+Qed.
+
+Section TargetJoin.
+  Variable U : list block.
+  Variable c : jcfg.
+  Variable canon : list block.
+  Hypothesis U_id : forall b, In b U -> bid b <> 0 /\ bid b <> bparent b.
+  Hypothesis U_uniq : forall x y, In x U -> In y U -> bid x = bid y -> x = y.
+  Hypothesis U_up : forall x y, In x U -> In y U -> bparent x = bid y -> bnum y < bnum x.
+  Hypothesis Hcanon_U : Forall (fun x => In x U) canon.
+  Hypothesis Hcanon_l : exists x, lnk x canon.
+  Variable merged : list block.
+  Hypothesis Hmerged_c : forall b, In b merged -> In b canon.
+  Variable cu : cursor.
+  Variable B : block.
+  Hypothesis HB : bref B = cu_blk cu.
+  Hypothesis HBc : In B canon.
+  Hypothesis Hmode : j_mode c = 2.
+  Hypothesis Hcur : j_cursor c = Some cu.
+
+  Let first := j_first c.
+  Let kept := j_kept c.
+  Let HBU : In B U.
+  Proof. rewrite Forall_forall in Hcanon_U. exact (Hcanon_U B HBc). Qed.
+
+  (* a join in target-cursor mode hands over the retained chain from the joining block on.  The first answered block
+     is the file block: by the identity check when the cursor has passed, and otherwise because it is the ancestor of
+     the cursor block at that height on the hub's chain as on canon *)
+  Lemma target_joins_gen w : target_on_chain c w cu -> joins_good U c merged w.
+  Proof.
+    intros Hto m lowest bn burst Hbn Ej.
+    destruct (join_try_target c (world_after c m w) lowest (fev bn) cu burst Hmode Hcur Ej) as (Eb & Hrd & Hpassed).
+    cbn [eblk file_event] in Eb, Hpassed.
+    split; [exact Hrd|]. intros V HV. fold first kept in HV.
+    set (s := h_f (w_hub (world_after c m w))) in *.
+    pose proof (fun hd sg H1 H2 H3 => Hto m hd sg Hrd H1 H2 H3) as Hon.
+    destruct (hub_through_shape U first kept U_id U_uniq U_up s V (bnum bn) cu burst HV Hon Eb)
+      as (hd & sg & pre & post & Hls & Eseg & Hgood & Hsg & Hpre & Hpost & Hevs & Hfirst & Hnonempty).
+    pose proof Hgood as [Hstd _ Hinc _].
+    assert (Hn : forall y, In y sg -> snum y = bnum (seg_blk y)).
+    { intros y Hy. rewrite Forall_forall in Hstd. exact (proj2 (Hstd y Hy)). }
+    destruct (vstate_segment U first kept U_id U_uniq U_up s V hd sg true HV Hls Eseg) as (_ & HsU & _).
+    assert (HxB : block_in (ri (cu_blk cu)) sg = true -> exists xB, In xB sg /\ seg_blk xB = B).
+    { intros Hin. apply block_in_spec in Hin as (xB & HxB & HsB). exists xB. split; [exact HxB|].
+      apply U_uniq; [rewrite Forall_forall in HsU; apply HsU; exact HxB | exact HBU|].
+      rewrite Forall_forall in Hstd. destruct (Hstd xB HxB) as [H1 _]. rewrite <- H1, HsB, <- HB. reflexivity. }
+    (* the answer is not empty: the cursor block is in it *)
+    assert (Hpne : post <> []).
+    { destruct Hnonempty as [H|[Hin Hle]]; [exact H|]. destruct (HxB Hin) as (xB & HxBin & EB).
+      assert (HnB : snum xB = rn (cu_blk cu)) by (rewrite (Hn xB HxBin), EB, <- HB; reflexivity).
+      intros E. rewrite E, app_nil_r in Hsg. rewrite Hsg in HxBin. specialize (Hpre xB HxBin). lia. }
+    destruct post as [|x0 r] eqn:Ep; [contradiction|].
+    destruct (seg_post_facts U first kept U_id U_uniq U_up s V hd sg pre x0 r HV Hls Eseg Hsg) as (Hhd & HpU & Hlr & Hlast & Hle).
+    assert (Hx0in : In x0 sg) by (rewrite Hsg; apply in_or_app; right; left; reflexivity).
+    assert (Hx0n : bnum bn <= snum x0) by (apply Hpost; left; reflexivity).
+    assert (HbnU : In bn U) by (rewrite Forall_forall in Hcanon_U; apply Hcanon_U, Hmerged_c; exact Hbn).
+    (* the first answered block is the file block *)
+    assert (Exb : seg_blk x0 = bn).
+    { destruct (N.lt_ge_cases (rn (cu_blk cu)) (bnum bn)) as [Hab|Hab].
+      - (* the cursor has passed: the identity check *)
+        destruct (Hpassed Hab) as (b0 & tl & Eburst & Eid). rewrite Hevs in Eburst. cbn [map] in Eburst.
+        injection Eburst as Eb0 _. rewrite <- Eb0 in Eid. unfold snap_event in Eid. cbn [eblk] in Eid.
+        apply U_uniq; [exact (Forall_inv HpU) | exact HbnU | exact Eid].
+      - (* through the cursor proper: both are the ancestor of the cursor block at that height *)
+        pose proof (through_proper_on_chain U first kept s V (bnum bn) cu burst hd sg HV Hon Hab Eb Hls Eseg) as Hblk.
+        destruct (HxB Hblk) as (xB & HxBin & EB).
+        destruct sg as [|s0 sg0] eqn:Esg0; [destruct pre; discriminate|].
+        assert (Hs0 : snum s0 <= bnum bn).
+        { destruct pre as [|p0 pre0].
+          - destruct (Hfirst eq_refl ltac:(discriminate)) as (x0' & r' & E & Hx0'). injection E as <- <-.
+            cbn [app] in Hsg. injection Hsg as -> _. lia.
+          - cbn [app] in Hsg. injection Hsg as -> _. specialize (Hpre p0 (or_introl eq_refl)). lia. }
+        destruct (seg_post_facts U first kept U_id U_uniq U_up s V hd (s0 :: sg0) [] s0 sg0 HV Hls Eseg eq_refl) as (_ & HgU & Hlg & _ & _).
+        assert (HnBn : bnum B = rn (cu_blk cu)) by (rewrite <- HB; reflexivity).
+        assert (Hbin : In bn (map seg_blk (s0 :: sg0))).
+        { apply (anc_on_run U U_id U_uniq U_up (map seg_blk (s0 :: sg0)) canon (seg_blk s0) (map seg_blk sg0) B bn eq_refl).
+          - exists (bparent (seg_blk s0)). cbn [map lnk]. split; [reflexivity | exact Hlg].
+          - exact Hcanon_l.
+          - exact HgU.
+          - exact Hcanon_U.
+          - rewrite <- EB. apply in_map. exact HxBin.
+          - exact HBc.
+          - apply Hmerged_c. exact Hbn.
+          - lia.
+          - rewrite <- (Hn s0 (or_introl eq_refl)). exact Hs0. }
+        apply in_map_iff in Hbin as (xb & Exb & Hxb).
+        assert (Hxbn : snum xb = bnum bn) by (rewrite (Hn xb Hxb), Exb; reflexivity).
+        assert (Exb0 : xb = x0).
+        { rewrite Hsg in Hxb. apply in_app_or in Hxb as [Hxb|[Hxb|Hxb]].
+          - specialize (Hpre xb Hxb). lia.
+          - symmetry. exact Hxb.
+          - exfalso. rewrite Hsg in Hinc. apply StronglySorted_app_r in Hinc. inversion Hinc as [|? ? _ Hall]; subst.
+            rewrite Forall_forall in Hall. specialize (Hall xb Hxb). rewrite Forall_forall in Hstd.
+            assert (H : snum x0 < snum xb) by (apply snum_lt_of; [apply Hstd; exact Hx0in | apply Hstd; rewrite Hsg; apply in_or_app; right; right; exact Hxb | exact Hall]).
+            lia. }
+        subst xb. exact Exb. }
+    rewrite Exb in *.
+    destruct Hlast as [l Hl]. exists hd, (map seg_blk r), l. split; [exact Hhd|]. split; [rewrite Hevs, map_eblk_snap; cbn [map]; rewrite Exb; reflexivity|].
+    split.
+    { rewrite Hevs. apply Forall_forall. intros e He. apply in_map_iff in He as (q & <- & _).
+      unfold snap_event. cbn [estep]. destruct (bnum (seg_blk q) <=? rn (libref (db s))); reflexivity. }
+    split; [exact HpU|]. split; [exact Hlr | exact Hl].
+  Qed.
+End TargetJoin.
 
 (* ------------------------------------------------------------------ the run *)
 
@@ -241,10 +438,12 @@ Section TargetRun.
   Hypothesis Hcanon_start : exists b, In b canon /\ bnum b <= start.
   Variable merged : list block.
   Hypothesis Hmerged_U : forall b, In b merged -> In b U.
+  Hypothesis Hmerged_c : forall b, In b merged -> In b canon.
   Variable cu : cursor.
   Variable B : block.
   Hypothesis HB : bref B = cu_blk cu.
   Hypothesis HBU : In B U.
+  Hypothesis HBc : In B canon.
   Hypothesis Hmode : j_mode c = 2.
   Hypothesis Hcur : j_cursor c = Some cu.
 
@@ -252,65 +451,14 @@ Section TargetRun.
   Let kept := j_kept c.
 
   (* a join in target-cursor mode hands over the retained chain from the joining block on *)
-  Lemma target_joins w : WOK U c w -> files_on_hub c w merged -> target_on_chain c w cu -> joins_good U c merged w.
+  Lemma target_joins w : target_on_chain c w cu -> joins_good U c merged w.
   Proof.
-    intros HW Hfo Hto m lowest bn burst Hbn Ej.
-    unfold join_try in Ej. rewrite Hmode, Hcur in Ej. cbn [N.eqb] in Ej.
-    destruct ((lowest <=? bnum (eblk (fev bn))) && matches_new (estep (fev bn))); [|discriminate].
-    cbn [eblk file_event] in Ej.
-    destruct (hub_through_cursor (h_f (w_hub (world_after c m w))) (bnum bn) cu) as [evs| | |] eqn:Eb; try discriminate.
-    destruct (h_ready (w_hub (world_after c m w))) eqn:Hrd; [|discriminate]. injection Ej as <-.
-    split; [reflexivity|]. intros V HV. fold first kept in HV.
-    set (s := h_f (w_hub (world_after c m w))) in *.
-    destruct (hub_through_shape U first kept U_id U_uniq U_up s V (bnum bn) cu evs HV (fun hd sg H1 H2 H3 => Hto m hd sg Hrd H1 H2 H3) Eb)
-      as (hd & sg & pre & post & Hls & Eseg & Hgood & Hsg & Hpre & Hpost & Hevs & Hfirst & Hnonempty).
-    pose proof Hgood as [Hstd _ Hinc _].
-    assert (Hn : forall y, In y sg -> snum y = bnum (seg_blk y)).
-    { intros y Hy. rewrite Forall_forall in Hstd. exact (proj2 (Hstd y Hy)). }
-    (* the answer is not empty: the cursor block is in it *)
-    destruct (vstate_segment U first kept U_id U_uniq U_up s V hd sg true HV Hls Eseg) as (_ & HsU & _).
-    assert (Hpne : post <> []).
-    { destruct Hnonempty as [H|[Hin Hle]]; [exact H|]. apply block_in_spec in Hin as (xB & HxB & HsB).
-      assert (EB : seg_blk xB = B).
-      { apply U_uniq; [rewrite Forall_forall in HsU; apply HsU; exact HxB | exact HBU|].
-        rewrite Forall_forall in Hstd. destruct (Hstd xB HxB) as [H1 _]. rewrite <- H1, HsB, <- HB. reflexivity. }
-      assert (HnB : snum xB = rn (cu_blk cu)) by (rewrite (Hn xB HxB), EB, <- HB; reflexivity).
-      intros E. rewrite E, app_nil_r in Hsg. rewrite Hsg in HxB. specialize (Hpre xB HxB). lia. }
-    destruct post as [|x0 r] eqn:Ep; [contradiction|].
-    destruct (seg_post_facts U first kept U_id U_uniq U_up s V hd sg pre x0 r HV Hls Eseg Hsg) as (Hhd & HpU & Hlr & Hlast & Hle).
-    (* the joining block is on the hub's chain *)
-    assert (Hx0in : In x0 sg) by (rewrite Hsg; apply in_or_app; right; left; reflexivity).
-    assert (Hx0n : bnum bn <= snum x0) by (apply Hpost; left; reflexivity).
-    destruct sg as [|s0 sg0] eqn:Esg0; [destruct pre; discriminate|].
-    assert (Hs0 : snum s0 <= bnum bn).
-    { destruct pre as [|p0 pre0].
-      - destruct (Hfirst eq_refl ltac:(discriminate)) as (x0' & r' & E & Hx0'). injection E as <- <-.
-        cbn [app] in Hsg. injection Hsg as -> _. lia.
-      - cbn [app] in Hsg. injection Hsg as -> _. specialize (Hpre p0 (or_introl eq_refl)). lia. }
-    (* the head's number bounds the joining block's: the first answered element is at or above it ... *)
-    destruct (N.le_gt_cases (bnum bn) (bnum hd)) as [Hbh|Hbh].
-    2:{ exfalso. specialize (Hle x0 Hx0in). lia. }
-    destruct (Hfo m hd s0 sg0 bn Hrd Hls Eseg Hbn Hs0 Hbh) as (xb & Hxb & Exb).
-    assert (Hxbn : snum xb = bnum bn) by (rewrite (Hn xb Hxb), Exb; reflexivity).
-    assert (Exb0 : xb = x0).
-    { rewrite Hsg in Hxb. apply in_app_or in Hxb as [Hxb|[Hxb|Hxb]].
-      - specialize (Hpre xb Hxb). lia.
-      - symmetry. exact Hxb.
-      - exfalso. rewrite Hsg in Hinc. apply StronglySorted_app_r in Hinc. inversion Hinc as [|? ? _ Hall]; subst.
-        rewrite Forall_forall in Hall. specialize (Hall xb Hxb). rewrite Forall_forall in Hstd.
-        assert (H : snum x0 < snum xb) by (apply snum_lt_of; [apply Hstd; exact Hx0in | apply Hstd; rewrite Hsg; apply in_or_app; right; right; exact Hxb | exact Hall]).
-        lia. }
-    subst xb. rewrite Exb in *.
-    destruct Hlast as [l Hl]. exists hd, (map seg_blk r), l. split; [exact Hhd|]. split; [rewrite Hevs, map_eblk_snap; cbn [map]; rewrite Exb; reflexivity|].
-    split.
-    { rewrite Hevs. apply Forall_forall. intros e He. apply in_map_iff in He as (q & <- & _).
-      unfold snap_event. cbn [estep]. destruct (bnum (seg_blk q) <=? rn (libref (db s))); reflexivity. }
-    split; [exact HpU|]. split; [exact Hlr | exact Hl].
+    exact (target_joins_gen U c canon U_id U_uniq U_up Hcanon_U Hcanon_l merged Hmerged_c cu B HB HBc Hmode Hcur w).
   Qed.
 
   Lemma stream_target w ps merged_end forked :
     run_start c w = start ->
-    WOK U c w -> eventual_tip c w canon -> files_on_hub c w merged -> target_on_chain c w cu ->
+    WOK U c w -> eventual_tip c w canon -> target_on_chain c w cu ->
     let D := file_delivery merged start file_bound (j_bundle c) in
     asc D -> (exists x, lnk x D) -> (forall z r, D = z :: r -> bnum z <= start) ->
     (forall b, In b D -> bid b = ri (cu_blk cu) -> bnum b = rn (cu_blk cu)) ->
@@ -318,8 +466,8 @@ Section TargetRun.
     exists st, sfold [] (fst res) = Some st /\
       (snd res = JNil -> (exists D1 D2, D = D1 ++ D2 /\ rev st = D1) \/ from_num start (rev st) = from_num start canon).
   Proof.
-    intros Hstart HW Htip Hfo Hto D Hasc [x0 HlD] HbotD Hcons res.
-    pose proof (target_joins w HW Hfo Hto) as Hjg.
+    intros Hstart HW Htip Hto D Hasc [x0 HlD] HbotD Hcons res.
+    pose proof (target_joins w Hto) as Hjg.
     assert (HinD : forall b, In b D -> In b merged).
     { intros b Hb. unfold D, file_delivery in Hb. apply filter_In in Hb as [Hb _]. exact Hb. }
     (* the file branch *)
@@ -399,7 +547,7 @@ End TargetRun.
 
 Lemma c07_seamless_target_proof : C07_seamless_target.
 Proof.
-  intros U c w ps merged_end canon forked cu B Hwfb Hlok [[l [Hl Hhub]] Hrest] Hchain Hincl merged Htip Hfo Hto
+  intros U c w ps merged_end canon forked cu B Hwfb Hlok [[l [Hl Hhub]] Hrest] Hchain Hincl merged Htip Hto
          Hmode Hcur Hfilter Hstop Hbundle Hbound HBc HB res start Hstartblk.
   assert (Hscope : disc_scope2_b U = true) by (unfold disc_scope2_b; rewrite Hwfb, Hlok; reflexivity).
   pose proof (bridge_id U Hwfb) as Hid. pose proof (bridge_uniq U Hwfb) as Huniq. pose proof (bridge_up U Hwfb) as Hup.
@@ -409,8 +557,9 @@ Proof.
   assert (HcU : Forall (fun x => In x U) canon) by (apply Forall_forall; exact Hincl).
   pose proof (lnk_of_chain_ok canon Hchain) as Hcl.
   pose proof (merged_chain_ok canon merged_end Hchain) as Hmok. fold merged in Hmok.
-  assert (HmU : forall b, In b merged -> In b U).
-  { intros b Hb. apply Hincl. unfold merged in Hb. apply filter_In in Hb as [Hb _]. exact Hb. }
+  assert (Hmc : forall b, In b merged -> In b canon).
+  { intros b Hb. unfold merged in Hb. apply filter_In in Hb as [Hb _]. exact Hb. }
+  assert (HmU : forall b, In b merged -> In b U) by (intros b Hb; apply Hincl, Hmc; exact Hb).
   set (D := file_delivery merged start file_bound (j_bundle c)).
   assert (HD : D = from_num start merged) by (apply delivery_all; assumption).
   destruct (c06_delivery_segment_proof merged start file_bound (j_bundle c) Hmok) as [_ HDok]. fold D in HDok.
@@ -432,8 +581,8 @@ Proof.
     { unfold D, file_delivery in Hb. apply filter_In in Hb as [Hb _]. unfold merged in Hb. apply filter_In in Hb as [Hb _]. exact Hb. }
     destruct Hchain as [_ Hnd]. rewrite (nodup_ids_eq canon b B Hnd Hbc HBc); [exact EBn | congruence]. }
   assert (Hstartle : exists b, In b canon /\ bnum b <= start) by (destruct Hstartblk as (b0 & H1 & H2); exists b0; split; [exact H1 | lia]).
-  destruct (stream_target U c canon start Hid Huniq Hup Hdecl Hfilter Hstop HcU Hcl Hstartle merged HmU cu B HB (Hincl B HBc) Hmode Hcur
-              w ps merged_end forked eq_refl HW Htip Hfo Hto (chain_ok_asc D HDok) (lnk_of_chain_ok D HDok) HbotD Hcons) as (st & Hst & Hfin).
+  destruct (stream_target U c canon start Hid Huniq Hup Hdecl Hfilter Hstop HcU Hcl Hstartle merged HmU Hmc cu B HB (Hincl B HBc) HBc Hmode Hcur
+              w ps merged_end forked eq_refl HW Htip Hto (chain_ok_asc D HDok) (lnk_of_chain_ok D HDok) HbotD Hcons) as (st & Hst & Hfin).
   fold res in Hst, Hfin.
   assert (Hnu : Forall (fun e => nu_ev e = true) (fst res)).
   { destruct (c13_stream_output_proof c w ps merged_end merged forked (fst res) (snd res)) as [Hp _].
